@@ -194,6 +194,15 @@ FUNCS += [
     dict(id='DisplayPointerBuf', file='src/pointer.rs', fn='fmt', impl=r"impl core::fmt::Display for PointerBuf \{", lean='PointerBuf.display', params=[('self', 'ptrself'), ('f', 'fmtr')], ret='fmt', rtype='Bytes'),
     dict(id='DisplayIndex', file='src/index.rs', fn='fmt', impl=r"impl fmt::Display for Index \{", lean='Index.display_fmt', params=[('self', 'errself:index'), ('f', 'fmtr')], ret='fmt', rtype='Bytes'),
 ]
+# serde: `serialize` as "the string handed to the serializer"; `deserialize` from a carrier that holds one string
+FUNCS += [
+    dict(id='SerializePointer', file='src/pointer.rs', fn='serialize', impl=r"impl serde::Serialize for Pointer \{", lean='Pointer.serialize', params=[('self', 'ptrself'), ('serializer', 'fmtr')], ret='fmt', rtype='Bytes', serde=True),
+    dict(id='SerializePointerBuf', file='src/pointer.rs', fn='serialize', impl=r"impl serde::Serialize for PointerBuf \{", lean='PointerBuf.serialize', params=[('self', 'ptrself'), ('serializer', 'fmtr')], ret='fmt', rtype='Bytes', serde=True),
+    dict(id='DeserializePointerBuf', file='src/pointer.rs', fn='deserialize', impl=r"impl<'de> serde::Deserialize<'de> for PointerBuf", lean='PointerBuf.deserialize',
+         params=[('deserializer', 'strcarrier')], ret='res', rtype='Res DoorErr Bytes', imports=['BufTryFromString'], serde=True, door=True),
+    dict(id='VisitBorrowedStr', file='src/pointer.rs', fn='visit_borrowed_str', impl=r"impl<'a> Visitor<'a> for PointerVisitor", lean='PointerVisitor.visit_borrowed_str',
+         params=[('self', 'fmtr'), ('v', 'bytes')], ret='res', rtype='Res DoorErr Bytes', imports=['PointerParse'], serde=True, door=True),
+]
 PE_IMPL = r"impl ParseError \{"
 FUNCS += [
     dict(id='ParseErrOffset', file='src/pointer.rs', fn='offset', impl=PE_IMPL, lean='ParseError.offset', params=[('self', 'errself:parseerror')], ret='pure', rtype='Nat'),
@@ -219,7 +228,7 @@ SIBLINGS = {'split_back': ('Pointer.split_back', 'opt(tuple:ptrself,tok)'), 'spl
 
 LEANTY = {'nat': 'Nat', 'bool': 'Bool', 'bytes': 'Bytes', 'cow': 'Cow', 'optnat': 'Option Nat', 'toklist': 'List Bytes',
           'tok': 'Bytes', 'index': 'Index', 'bound': 'Bound', 'ptr': 'Bytes', 'span': 'Span', 'tokself': 'Bytes',
-          'intocow': 'Bytes', 'unit': 'Unit', 'ptrself': 'Bytes', 'vref': 'Loc × Val', 'vroot': 'Val', 'bufself': 'Bytes', 'intotoken': 'Bytes', 'asrefptr': 'Bytes', 'docself': 'Val', 'val': 'Val', 'aref': 'Loc × List Val', 'oref': 'Loc × List (Bytes × Val)', 'assigned': 'Assigned', 'intoval': 'Val', 'resolveerr': 'ResolveErr', 'assignerr': 'AssignErr', 'parseerror': 'ParseError', 'bufval': 'Bytes', 'fmtr': 'Unit', 'split': 'Split', 'tokensiter': 'Split', 'component': 'Component', 'components': 'Components', 'bufref': 'Bytes', 'kvlist': 'List (Bytes × Val)', 'vallist': 'List Val'}
+          'intocow': 'Bytes', 'unit': 'Unit', 'ptrself': 'Bytes', 'vref': 'Loc × Val', 'vroot': 'Val', 'bufself': 'Bytes', 'intotoken': 'Bytes', 'asrefptr': 'Bytes', 'docself': 'Val', 'val': 'Val', 'aref': 'Loc × List Val', 'oref': 'Loc × List (Bytes × Val)', 'assigned': 'Assigned', 'intoval': 'Val', 'resolveerr': 'ResolveErr', 'assignerr': 'AssignErr', 'parseerror': 'ParseError', 'bufval': 'Bytes', 'fmtr': 'Unit', 'strcarrier': 'Bytes', 'split': 'Split', 'tokensiter': 'Split', 'component': 'Component', 'components': 'Components', 'bufref': 'Bytes', 'kvlist': 'List (Bytes × Val)', 'vallist': 'List Val'}
 
 # enums the subset may match on / construct: type tag -> [(lean ctor, [rust paths], [field types])]
 ENUMS = {
@@ -605,6 +614,13 @@ class Fn:
                         if i == len(args): return k(f"({tgt[0]} {' '.join(acc)})", tgt[1])
                         return self.E(args[i], env, ctx, lambda a, ta: god2(i + 1, acc + [a]))
                     return god2(0, [])
+            if self.spec.get('serde') and ps in ('<qualified>::serialize', 'String::serialize', 'str::serialize') and len(args) == 2 and args[1] == ('path', ['serializer']):
+                return self.E(args[0], env, ctx, lambda a, ta: k(a, 'bytes') if ta in BYTESLIKE else self.bad("serialize of " + ta))
+            if self.spec.get('serde') and ps == 'String::deserialize' and len(args) == 1:
+                # the carrier holds one string and hands it over
+                return self.E(args[0], env, ctx, lambda a, ta: k(f"(Res.ok {a})", mk_res('bytes', 'doorerr')) if ta == 'strcarrier' else self.bad("String::deserialize(" + ta + ")"))
+            if self.spec.get('serde') and ps == 'PointerBuf::try_from' and len(args) == 1:
+                return self.E(args[0], env, ctx, lambda a, ta: k(f"(PointerBuf.try_from_string {a})", mk_res('bytes', 'parseerror')) if ta in BYTESLIKE else self.bad("PointerBuf::try_from(" + ta + ")"))
             if ps == 'Tokens::new' and len(args) == 1 and self.spec.get('iter'):
                 return self.E(args[0], env, ctx, lambda a, ta: k(a, 'tokensiter') if ta == 'split' else self.bad("Tokens::new(" + ta + ")"))
             if ps == 'Label::new' and len(args) == 3:
@@ -935,6 +951,16 @@ class Fn:
                 pan = ctx.ret(f"(Res.panic {mv})") if self.retkind != 'optres' else ctx.ret(f".panic {mv}")
                 # a panic inside the callee is not swallowed by `.ok()`: it propagates; otherwise Ok(v) ↦ Some(v), Err(_) ↦ None
                 return paren(f"match panicOf {r} with\n| some {mv} => {pan}\n| none =>\n" + ind(f"let {o} := okOf {r}\n" + k(o, mk_opt(tt))))
+            if is_res(tr) and name == 'map_err' and len(args) == 1 and self.spec.get('serde'):
+                f0 = args[0]; custom = False
+                if f0[0] == 'path' and f0[1][-1] == 'custom': custom = True
+                if f0[0] == 'closure':
+                    b = f0[2]
+                    while b[0] == 'block' and not b[1] and b[2] is not None: b = b[2]
+                    if b[0] == 'call' and b[1][0] == 'path' and b[1][1][-1] == 'custom': custom = True
+                if not custom: raise Unsupported("map_err into something other than a serde custom error")
+                tt, te = res_parts(tr); a = self.fresh('a'); m = self.fresh('m')
+                return k(paren(f"match {r} with\n| .ok {a} => Res.ok {a}\n| .err _ => Res.err DoorErr.de\n| .panic {m} => Res.panic {m}"), mk_res(tt, 'doorerr'))
             if is_res(tr) and name == 'map_err' and len(args) == 1 and args[0][0] == 'closure':
                 tt, te = res_parts(tr)
                 pat, env2 = self.closure_head(args[0], te, env)
